@@ -19,6 +19,7 @@ import (
 // prefix 4: auth on: CONNECT             -> waiting for AUTH
 // prefix 5: auth on: CONNECT, AUTH       -> MQTT CONNECT sent, broker silent
 // prefix 6: CONNECT, then a second CONNECT one second later (the old exchange is cancelled)
+// prefix 7: CONNECT, then a second CONNECT with keep-alive 0 one second later (refused; the first exchange is still pending)
 func VH_C10_halfopen(prefix int) {
 	auth := prefix == 4 || prefix == 5
 	s := vStartSession(auth, nil, nil, nil)
@@ -41,6 +42,10 @@ func VH_C10_halfopen(prefix int) {
 		s.runFor(time.Second, 40)
 		s.clientSends(con)
 		tConnect = vNow()
+	case 7:
+		// a second CONNECT that is refused (keep-alive 0): the pending exchange stays supervised
+		s.runFor(time.Second, 40)
+		s.clientSends(snPkts1.NewConnect(0, []byte("c"), false, true))
 	}
 	// (a refused exchange, e.g. will QoS 3, may end the session at once)
 	// silence
